@@ -171,6 +171,33 @@ def _flat_hash(d):
         return _h(d)
 
 
+def interned_constants():
+    """For every module-level (and class-level) PSLiteral / PSKeyword constant of the pdfminer package - LITERAL_PAGE, KEYWORD_BI,
+    the members of LITERALS_FLATE_DECODE ... - whether the interning table still maps the constant's name to THAT object
+    (looked up without interning anything).  The library compares parsed names with these constants by identity."""
+    import sys
+    from pdfminer.psparser import PSKeyword, PSKeywordTable, PSLiteral, PSLiteralTable
+    out = {}
+
+    def look(where, v):
+        if isinstance(v, PSLiteral):
+            out[where] = hash(PSLiteralTable.dict.get(v.name) is v)
+        elif isinstance(v, PSKeyword):
+            out[where] = hash(PSKeywordTable.dict.get(v.name) is v)
+        elif isinstance(v, (tuple, list)) and v and all(isinstance(x, (PSLiteral, PSKeyword)) for x in v):
+            for i, x in enumerate(v):
+                look("%s[%d]" % (where, i), x)
+    for mname, mod in list(sys.modules.items()):
+        if mod is None or not (mname == "pdfminer" or mname.startswith("pdfminer.")):
+            continue
+        for attr, v in list(vars(mod).items()):
+            look("%s.%s" % (mname, attr), v)
+            if isinstance(v, type) and getattr(v, "__module__", None) == mname:
+                for cattr, cv in list(vars(v).items()):
+                    look("%s.%s.%s" % (mname, attr, cattr), cv)
+    return out
+
+
 class _Tables:
     """a table whose summary cannot be computed (the cache changed shape, an attribute is gone) is recorded as
     unobservable instead of stopping the check: whether the change matters is decided on the results"""
@@ -217,6 +244,7 @@ def shared_tables():
                                           for k, v in CMapDB._umap_cache.items()})
     t.put("PSLiteralTable", "append", lambda: {k: hash((id(v), v.name)) for k, v in PSLiteralTable.dict.items()})
     t.put("PSKeywordTable", "append", lambda: {k: hash((id(v), v.name)) for k, v in PSKeywordTable.dict.items()})
+    t.put("interned constants", "append", interned_constants)     # (modules imported later add constants)
     t.put("module scalars", "immutable", lambda: {"settings.STRICT": hash(settings.STRICT), "PSBaseParser.BUFSIZ": hash(PSBaseParser.BUFSIZ),
                                                   "PDFPage.INHERITABLE_ATTRS": hash(frozenset(PDFPage.INHERITABLE_ATTRS)),
                                                   "IDENTITY_ENCODER": _flat_hash(IDENTITY_ENCODER)})
